@@ -1191,6 +1191,8 @@ impl Check for C42 {
     }
 
     fn run(&self, ctx: &Ctx, rep: &mut Reporter) {
+        // recorded first so that a capped run still carries a sample
+        rep.sample(|| json!({"variant": "pkidx", "ops": ["INS1", "PREP_23", "TXN_INS3"], "cfg": "wal=ON,synchronous=OFF,wal_checkpoint_threshold=1", "meaning": "CREATE t + index; INSERT 1; prepared INSERT of 2 then 3; BEGIN, INSERT 3, COMMIT (auto-checkpoint); observe — vs. the same under the default configuration"}));
         for c in ["baseline_histories", "baseline_index_plans_for_a_lookup", "prepared_inserts_through_cached_plan", "runs_with_wal_frames_at_end", "large_schema_scenarios", "large_schema_runs_with_lru_evictions", "large_schema_reopens"] {
             rep.expect_nonzero(c);
         }
@@ -1210,6 +1212,10 @@ impl Check for C42 {
             for (i, c) in list.iter().enumerate() {
                 if !ctx.mine(i as u64) {
                     continue;
+                }
+                if ctx.expired() {
+                    rep.capped("deadline in explicit case list");
+                    break;
                 }
                 if let Some(key) = RunKey::from_json(c) {
                     check_case(&mut eng, rep, &key, "cases", true);
@@ -1236,7 +1242,6 @@ impl Check for C42 {
         rep.count("runs_with_wal_frames_at_end", wf);
         rep.bound("configurations_covered", json!(all_configs().len()));
         rep.count("prepared_inserts_through_cached_plan", CACHED_PLAN_EXECS.with(|c| c.get()));
-        rep.sample(|| json!({"variant": "pkidx", "ops": ["INS1", "PREP_23", "TXN_INS3"], "cfg": "wal=ON,synchronous=OFF,wal_checkpoint_threshold=1", "meaning": "CREATE t + index; INSERT 1; prepared INSERT of 2 then 3; BEGIN, INSERT 3, COMMIT (auto-checkpoint); observe — vs. the same under the default configuration"}));
     }
 
     fn replay(&self, ctx: &Ctx, case: &Value, rep: &mut Reporter) {
